@@ -95,24 +95,40 @@ def analyse_mode(ctx, repo, noncorr: bool):
                 g_ = a.items[0]
                 gl = list(g_.items) if isinstance(g_, TupleV) else (list(g_) if isinstance(g_, (tuple, list)) else [g_])
                 alts.append((gl, a.items[1]))
-        empty = [(g[0], v) for g, v in alts if T.is_sparse(v) and len(g) == 1 and isinstance(g[0], CondV) and g[0].kind == "cmp" and
+        empty = [(g[0], v) for g, v in alts if T.is_sparse(v) and len(g) == 1 and isinstance(g[0], CondV) and g[0].kind in ("cmp", "and", "or", "not") and
                  not (isinstance(v.origin, Term) and v.origin.op == "spdot")]
         full = [(g, v) for g, v in alts if T.is_sparse(v) and isinstance(v.origin, Term) and v.origin.op == "spdot" and not g]
         if len(empty) == 1 and len(full) == 1 and empty[0][1] is not full[0][1]:
-            op_, a_, b_ = empty[0][0].args
-            d_ = a_ - b_
+            def ev_(c_, Lv, tv):
+                """truth of a condition over L and tau at a point; None when it reads anything else"""
+                if not isinstance(c_, CondV):
+                    return None
+                if c_.kind == "cmp":
+                    o_, x1, x2 = c_.args
+                    x_ = (x1 - x2).subs({("sym", "L"): Poly.const(Lv), ("sym", "tau"): Poly.const(tv)})
+                    if not x_.is_const():
+                        return None
+                    x_ = x_.as_const()
+                    return {"<": x_ < 0, "<=": x_ <= 0, ">": x_ > 0, ">=": x_ >= 0, "==": x_ == 0, "!=": x_ != 0}[o_]
+                if c_.kind == "not":
+                    r_ = ev_(c_.args[0], Lv, tv)
+                    return None if r_ is None else (not r_)
+                if c_.kind in ("and", "or"):
+                    rs_ = [ev_(a__, Lv, tv) for a__ in c_.args]
+                    if any(r_ is None for r_ in rs_):
+                        return None
+                    return all(rs_) if c_.kind == "and" else any(rs_)
+                return None
             ctx.instance("LIN")
             cex = None
-            if set(d_.atoms()) <= {("sym", "L"), ("sym", "tau")}:
+            decided = ev_(empty[0][0], 3, 1) is not None
+            if decided:
                 for Lv in range(0, 8):
                     for tv in range(1, 8):
-                        x_ = d_.subs({("sym", "L"): Poly.const(Lv), ("sym", "tau"): Poly.const(tv)})
-                        if not x_.is_const():
-                            continue
-                        x_ = x_.as_const()
-                        holds = {"<": x_ < 0, "<=": x_ <= 0, ">": x_ > 0, ">=": x_ >= 0, "==": x_ == 0, "!=": x_ != 0}[op_]
+                        holds = ev_(empty[0][0], Lv, tv)
                         if holds and Lv - tv >= 1 and cex is None:
                             cex = (Lv, tv)
+            if decided:
                 if cex is not None:
                     ctx.violate("LIN", f"{tag}.early_empty", "the `no window fits` early return also fires when a window does fit: a trajectory of "
                                 "L frames has max(L - tau, 0) windows (x_k, x_{k+tau}), so the empty matrix may be returned only for L <= tau", where,
@@ -122,6 +138,8 @@ def analyse_mode(ctx, repo, noncorr: bool):
                     ctx.ok("LIN", f"{tag}.early_empty", "the early return of an empty matrix is taken only when no window fits (L <= tau)", where,
                            vstr(empty[0][0])[:100])
                 res = full[0][1]
+            if not decided:
+                pass
     # ---------------------------------------------------------------- normalisation term
     if not (T.is_sparse(res) and isinstance(res.origin, Term)):
         ctx.inconclusive("KERNEL", f"{tag}.result", "return value not derived", where, witness=contains_top(res) or vstr(res)[:200])
